@@ -13,6 +13,7 @@
 #include "Matrix/MatrixSquareSymmetric.hpp"
 #include "Matrix/MatrixRectangular.hpp"
 #include "Simulation/CalcSimuTurningBands.hpp"
+#include "Calculators/CalcMigrate.hpp"
 #include <unistd.h>
 #include <signal.h>
 #include <sys/wait.h>
@@ -195,6 +196,37 @@ int main()
         if (dA.getNRows() == dB.getNRows() && dA.getNCols() == dB.getNCols()) pairOut("driftmatrix_" + tag, flat(dA), flat(dB), {}, {}, 64., st);
         else pairOut("driftmatrix_size_" + tag, {(double)dA.getNRows(), (double)dA.getNCols()}, {(double)dB.getNRows(), (double)dB.getNCols()}, {}, {}, 1., st);
       }
+    });
+
+    // ---- migration of the first variable onto a coarse grid (several samples per cell) and onto the targets
+    if (mode != 2) guarded("migrate_" + tag, false, st, [&]()
+    {
+      VectorInt nx(ndim); VectorDouble dx(ndim), x0(ndim);
+      for (int d = 0; d < ndim; d++) { nx[d] = (ndim == 1) ? 4 : (ndim == 2 ? 3 : 2); dx[d] = 8.5 / nx[d] + 0.03125 * (d + 1); x0[d] = dx[d] / 2. - 0.1875; }
+      for (int flagFill = 0; flagFill < 2; flagFill++)
+      {
+        DbGrid* gA = DbGrid::create(nx, dx, x0); DbGrid* gB = DbGrid::create(nx, dx, x0);
+        int nA = gA->getColumnNumber(), nB = gB->getColumnNumber();
+        int eA = migrate(dbA, gA, "z1", 1, VectorDouble(), flagFill != 0), eB = migrate(dbB, gB, "z1", 1, VectorDouble(), flagFill != 0);
+        if (eA == 0 && eB == 0 && gA->getColumnNumber() == nA + 1 && gB->getColumnNumber() == nB + 1)
+        {
+          std::vector<double> a, b;
+          for (int i = 0; i < gA->getSampleNumber(); i++) { a.push_back(gA->getValueByColIdx(i, nA)); b.push_back(gB->getValueByColIdx(i, nB)); }
+          pairOut(std::string("migrate_point_to_grid_") + (flagFill ? "fill_" : "") + tag, noNA(a), noNA(b), {}, {}, 1., st);
+        }
+        else if (eA != eB) pairOut("migrate_grid_status_" + tag, {(double)eA}, {(double)eB}, {}, {}, 1., st);
+        delete gA; delete gB;
+      }
+      Db* outA = makeDb(X0, ndim, {}, {}, {}, {}); Db* outB = makeDb(X0, ndim, {}, {}, {}, {});
+      int nA = outA->getColumnNumber(), nB = outB->getColumnNumber();
+      int eA = migrate(dbA, outA, "z1"), eB = migrate(dbB, outB, "z1");
+      if (eA == 0 && eB == 0 && outA->getColumnNumber() == nA + 1 && outB->getColumnNumber() == nB + 1)
+      {
+        std::vector<double> a, b;
+        for (int t = 0; t < ntarget; t++) { a.push_back(outA->getValueByColIdx(t, nA)); b.push_back(outB->getValueByColIdx(t, nB)); }
+        pairOut("migrate_point_to_point_" + tag, noNA(a), noNA(b), {}, {}, 1., st);
+      }
+      delete outA; delete outB;
     });
 
     // ---- conditional simulation (same seed); in a child process when coordinates are undefined
